@@ -386,6 +386,14 @@ class Engine:
                 return ('se', ty['path'], ('a', tagname, 'isize'), tuple(variants))
         return ('op', name, ty)
 
+    def declare_atom(self, st, name, tk, dom):
+        """Register an input atom with an explicit value set (used by rules that build their own
+        abstract pre-states, e.g. ghost bits of the shift register)."""
+        st.doms[name] = frozenset(dom)
+        if name not in self.full_doms:
+            self.full_doms[name] = frozenset(dom)
+        return ('a', name, tk)
+
     # ---------------------------------------------------------------- values
     def simp(self, v, st):
         """Substitute atoms whose current value set is a singleton."""
